@@ -1,6 +1,7 @@
 import RedkaModel.Proto
 import RedkaModel.Model.Inv
 import RedkaModel.Spec.Meta
+import RedkaModel.ScanJudge
 
 open Redka Redka.Proto
 
@@ -76,6 +77,8 @@ partial def loop (h : IO.FS.Stream) (out : IO.FS.Stream) : IO Unit := do
   let l := line.trimAsciiEnd.toString
   if l.startsWith "#" then
     out.putStrLn l
+  else if l.startsWith "SCAN " then
+    out.putStrLn (ScanJudge.judge l)
   else if !l.isEmpty then
     out.putStrLn (judge l)
   loop h out
